@@ -205,7 +205,7 @@ def C07(ctx):
     ctx.mc("MC_Summary", "MC_Summary.%s.cfg" % t)
     ctx.emit_replay("MC_Summary", "MC_Summary.sim.cfg", "hist-sim", workers=1,
                     simulate="num=%d" % q(ctx, 500, 5000), seed=ctx.seed, coverage=False)
-    ctx.record_validate("sumhist", q(ctx, 1500, 20000), "Tr_Summary", "Tr_Summary.cfg")
+    ctx.record_validate("sumhist", q(ctx, 1500, 20000), "Tr_Summary", "Tr_Summary.cfg", chunk=4000)
 
 
 def C08(ctx):
@@ -220,7 +220,7 @@ def C08(ctx):
     ctx.exhaustive = True
     ctx.record_validate("sumparse", q(ctx, 8000, 100000), "Tr_Summary", "Tr_Summary.cfg")
     # is_completed() against the eleven required variables, after every call of random histories
-    ctx.record_validate("sumhist", q(ctx, 800, 10000), "Tr_Summary", "Tr_Summary.cfg", name="completed")
+    ctx.record_validate("sumhist", q(ctx, 800, 10000), "Tr_Summary", "Tr_Summary.cfg", name="completed", chunk=4000)
 
 
 def C09(ctx):
